@@ -52,6 +52,7 @@ type Anchors struct {
 	ShutdownFn    *ssa.Function   // calls (*sql.DB).Close
 	ShutdownSteps []*ssa.Function // steps of the shutdown routine that it alone calls (e.g. the one closing the handle)
 	WithMetaFn    *ssa.Function   // common callee of SetWithMeta and DeleteWithMeta
+	ConvWrappers  map[*ssa.Function]bool // thin wrappers that call the converter and return its result
 
 	Problems map[string]string
 }
@@ -406,15 +407,51 @@ func (m *Model) resolveAnchors() error {
 			}
 		}
 	}
+	// a candidate that merely forwards to another candidate (and hands its result on) is a wrapper
+	if len(convs) > 1 {
+		isCand := map[*ssa.Function]bool{}
+		for _, f := range convs {
+			isCand[f] = true
+		}
+		var builders []*ssa.Function
+		for _, f := range convs {
+			forwards := false
+			m.eachCall(f, func(c ssa.CallInstruction) {
+				if g := c.Common().StaticCallee(); g != nil && g != f && isCand[g] {
+					forwards = true
+				}
+			})
+			if !forwards {
+				builders = append(builders, f)
+			}
+		}
+		if len(builders) == 1 {
+			convs = builders
+		}
+	}
 	a.Converter = one("Converter", convs)
 	if a.Converter != nil {
 		a.EventType = a.Converter.Signature.Recv().Type().(*types.Pointer).Elem().(*types.Named)
+	}
+	// thin wrappers of the converter: take the event, call the converter and hand its result on
+	a.ConvWrappers = map[*ssa.Function]bool{}
+	if a.Converter != nil {
+		for _, fn := range m.Funcs {
+			if fn.Parent() != nil || fn == a.Converter || fn.Signature.Results().Len() != 1 || !types.Identical(fn.Signature.Results().At(0).Type(), a.Converter.Signature.Results().At(0).Type()) {
+				continue
+			}
+			m.eachCall(fn, func(c ssa.CallInstruction) {
+				if c.Common().StaticCallee() == a.Converter {
+					a.ConvWrappers[fn] = true
+				}
+			})
+		}
 	}
 	// post function: takes *event and calls the converter
 	if a.Converter != nil {
 		var posts []*ssa.Function
 		for _, fn := range m.Funcs {
-			if fn.Parent() != nil {
+			if fn.Parent() != nil || a.ConvWrappers[fn] {
 				continue
 			}
 			takes := false
@@ -428,7 +465,7 @@ func (m *Model) resolveAnchors() error {
 			}
 			calls := false
 			m.eachCall(fn, func(c ssa.CallInstruction) {
-				if c.Common().StaticCallee() == a.Converter {
+				if c.Common().StaticCallee() == a.Converter || a.ConvWrappers[c.Common().StaticCallee()] {
 					calls = true
 				}
 			})
